@@ -101,6 +101,13 @@ def _gen_module(r, shared_names):
     mainblock = None
     if r.random() < 0.6:
         mainblock = 'if __name__ == "__main__":\n    db.Setting = 99999\n    d0.On = 1'
+        if r.random() < 0.5:
+            # a constant of the library re-assigned under the guard: that code does not run when imported
+            cn = "STEP" + str(r.randint(0, 9))
+            L.insert(0, f"{{P}}{cn} = {r.randint(1, 9)}")
+            mainblock += f"\n    {cn} = {r.randint(10, 99)}"
+            funcs.append((f"rd{cn.lower()}", 0, True))
+            L.append(f"def {{P}}rd{cn.lower()}():\n    return {{P}}{cn} + d0.Idle")
     return dict(text="\n".join(L), funcs=funcs, unused=unused, mainblock=mainblock)
 
 
@@ -144,6 +151,12 @@ def gen_case(task, i):
 
     for _ in range(r.randint(0, 2)):
         B.append(call(0))
+    vfs = [(k, f) for k, m in enumerate(mods) for f in m["funcs"] if f[2]]
+    two = None
+    if len(vfs) >= 2 and r.random() < 0.5:
+        # two library results meet in one expression (each function may have this single call site only)
+        (k1, f1), (k2, f2) = r.sample(vfs, 2)
+        two = f"d{r.randrange(6)}.{r.choice(CELLW)} = {{R{k1}}}{f1[0]}({', '.join(str(r.randint(1, 9)) for _ in range(f1[1]))}) {r.choice(['-', '+', '*'])} {{R{k2}}}{f2[0]}({', '.join(str(r.randint(1, 9)) for _ in range(f2[1]))})"
     B.append("while True:")
     B.append("    yield_()")
     for _ in range(r.randint(1, 4)):
@@ -160,6 +173,8 @@ def gen_case(task, i):
     key_order = [m["name"] for m in mods] + [""]
     if r.random() < 0.6:
         r.shuffle(key_order)
+    if two:
+        B.append("    " + two)
     return dict(mods=mods, imports=imports, key_order=key_order, body="\n".join(B), stream=task["stream"], vectors=[dict(append_version=False), dict(append_version=False, inline_functions=False), dict(r.choice(CORNERS), append_version=False, remove_labels=r.random() < 0.5, compact=r.random() < 0.5)], env_seeds=[f"{i}:0", f"{i}:1"])
 
 
